@@ -3,6 +3,7 @@ mod cmp;
 mod diff;
 mod gen;
 mod hist;
+mod logical;
 mod model;
 mod mon;
 mod report;
@@ -47,6 +48,36 @@ fn spec(prop: &str) -> CheckSpec {
             rule = C02_RULE;
             gates.push(Gate { counter: "calls", min_quick: 100_000, min_thorough: 1_000_000 });
             gates.push(Gate { counter: "resizes_on_alternate_screen", min_quick: 1000, min_thorough: 10_000 });
+        }
+        "C09" => {
+            rule = "Oracle computed from the input itself: for a text of printable characters (ASCII, Latin-1, CJK, Unicode spaces, combining/zero-width, emoji, DEL) and CR LF breaks, text() (trailing empty lines stripped, lines compared modulo trailing Unicode white space) must equal the input lines, and TextUnwrapper over lines() must give the same; every text is run at two widths. Line lengths are drawn around k*cols-1, k*cols, k*cols+1, 0, lines of spaces, trailing spaces; every width of the tier (1..40 quick, 1..120 thorough) is visited in turn, heights 1..12 (1..40). distinct_nontrivial = distinct (line length mod cols class, rows spanned, scrolled?, width, height class).";
+            gates.push(Gate { counter: "texts_that_scrolled", min_quick: 10_000, min_thorough: 100_000 });
+            gates.push(Gate { counter: "texts_with_wrapped_lines", min_quick: 10_000, min_thorough: 100_000 });
+        }
+        "C10" => {
+            rule = "Relational monitor around every resize() on the primary screen (unlimited scrollback): logical lines (cells with pens joined over soft-wrap marks, trailing blanks stripped) above the cursor's line unchanged; cursor stays in its logical line, text before it intact, same offset when it was on a character (wrap-pending = last column); lines from the cursor's on are unchanged or (last surviving one) cut short, never altered/reordered/invented. Contents come from arbitrary G1 histories without alternate-screen tokens (marks set and cleared by editing, coloured blanks, cursor anywhere) followed by chains of 1-6 resizes between sizes 1..14x1..8 and up to 40x12 (200x60 thorough), interleaved with more input. distinct_nontrivial = distinct (width change x height change, cursor on char / in blanks / wrap-pending, rows spanned by the cursor's line, scrollback present, old width class).";
+            gates.push(Gate { counter: "resizes_checked", min_quick: 100_000, min_thorough: 1_000_000 });
+            gates.push(Gate { counter: "resizes_with_cursor_on_a_character", min_quick: 5_000, min_thorough: 50_000 });
+        }
+        "C12" => {
+            rule = "Three or more real terminals per case: the same string fed by one feed_str, by feed() per character and by several random splittings (and, for 12 short inputs, by EVERY subset of cut points) must end with identical view(), cursor(), cursor-key mode, dump() and hooked hidden state, and - unlimited scrollback - identical lines(); while the alternate screen shows or under a finite limit a normalising feed_str(\"\") precedes the comparison (feed() never trims). distinct_nontrivial = distinct (parser state at a cut point, limit class, parameter / sub-parameter count at the cut).";
+            gates.push(Gate { counter: "chunkings_compared", min_quick: 50_000, min_thorough: 500_000 });
+        }
+        "C14" => {
+            rule = "Two executions per session: limit L (Changes fully consumed, input in its original calls) vs unlimited (input in one call). concat(all Changes.scrollback) ++ lines() under L must equal lines() of the unlimited twin as sequences of (cells with pens, soft-wrap mark). util::TextCollector output under (L, original chunking) must equal (unlimited, one chunk) modulo trailing empty strings. Sessions: G1 without RIS/resize, alt excursions, scroll regions, DL/IL, ending on the primary screen; L in {0,1,2,9,10,11,25,100,1000}. distinct_nontrivial = distinct (L, lines handed out class, excursion present, wrapped lines present, rows class).";
+            gates.push(Gate { counter: "sessions_that_handed_out_lines", min_quick: 5_000, min_thorough: 50_000 });
+            gates.push(Gate { counter: "trim_inside_a_wrapped_logical_line", min_quick: 200, min_thorough: 2_000 });
+        }
+        "C16" => {
+            rule = "Per case: a G1 primary history (scrollback, saved cursor, any cursor place, all limits), then enter (47/1047/1049 as its own call), an excursion of G1 input filtered by the reference parser to contain no leave sequence and no RIS (re-entering with another mode number allowed), in half of the cases interleaved with resizes and cursor moves, then leave with a possibly different mode number. Checked: entry screen blank in the pen current at entry; text() identical after every excursion call and primary lines() (cells, pens, marks) identical after return while the size is unchanged; nothing handed out during the excursion; C02 geometry invariants after every call; 1049/1049 restores the cursor; after a resized excursion the logical lines are only re-wrapped / cut short at the end and a 1049 cursor that was on a character is on the same character. Plus the differential monitor rows for the switch itself. distinct_nontrivial = distinct (enter mode, leave mode, resized, limit class, wrap-pending at entry, scrollback present, size changed).";
+            gates.push(Gate { counter: "resized_excursions", min_quick: 5_000, min_thorough: 50_000 });
+            gates.push(Gate { counter: "resized_1049_excursions_with_cursor_on_a_character", min_quick: 300, min_thorough: 3_000 });
+        }
+        "C19" => {
+            rule = "Real-vs-fresh: after an arbitrary G1 history (resizes, alternate screen, customised modes/margins/tabs/charsets/pens/saved contexts) and an input that parks the parser in each of the 14 states in turn, ESC c is fed; the terminal is then compared with a freshly built one of the current size and same limit: view, lines, cursor, cursor-key mode, dump() string and every hooked hidden field; then a continuation (one of 3 probe scripts that expose each hidden component, or a random G1 continuation incl. resizes) is fed to both and everything is compared after each call. distinct_nontrivial = distinct (parser state before ESC c, set of non-default hidden components before the reset).";
+            gates.push(Gate { counter: "resets_checked", min_quick: 20_000, min_thorough: 200_000 });
+            gates.push(Gate { counter: "resets_on_alternate_screen", min_quick: 1_000, min_thorough: 10_000 });
+            gates.push(Gate { counter: "resets_with_cursor_key_mode_set", min_quick: 300, min_thorough: 3_000 });
         }
         "C13" => {
             rule = C13_RULE;
@@ -94,9 +125,56 @@ fn worker(ctx: &Ctx, rep: &mut Report) {
         "C03" => mon::c03::work(ctx, rep),
         "C20" => mon::c20::work(ctx, rep),
         "C02" => mon::callmon::work_c02(ctx, rep),
+        "C09" => mon::relmon::work_c09(ctx, rep),
+        "C10" => mon::relmon::work_c10(ctx, rep),
+        "C12" => mon::relmon::work_c12(ctx, rep),
+        "C14" => mon::relmon::work_c14(ctx, rep),
+        "C16" => mon::relmon::work_c16(ctx, rep),
+        "C19" => mon::relmon::work_c19(ctx, rep),
         "C13" => mon::callmon::work_c13(ctx, rep),
         "C15" => mon::callmon::work_c15(ctx, rep),
         other => rep.inconclusive(format!("no monitor for {}", other)),
+    }
+}
+
+/// Re-execute one recorded history under the monitor of its property.
+fn replay(prop: &str, h: &hist::History, rep: &mut Report) {
+    use mon::{callmon, relmon};
+    match prop {
+        "C02" => {
+            callmon::c02_history(h, 1, rep);
+            mon::diffmon::run_one(prop, h, rep);
+        }
+        "C09" => relmon::c09_history(h, rep),
+        "C10" => relmon::c10_history(h, rep),
+        "C12" => relmon::c12_history(h, rep),
+        "C13" => {
+            // the Changes handling is random per call: try several handling seeds
+            for s in 0..32 {
+                callmon::c13_history(h, s, rep);
+            }
+        }
+        "C14" => relmon::c14_history(h, rep),
+        "C15" => callmon::c15_history(h, rep),
+        "C16" => {
+            if h.meta_get("enter_at").is_some() {
+                relmon::c16_history(h, rep)
+            } else {
+                mon::diffmon::run_one(prop, h, rep)
+            }
+        }
+        "C19" => {
+            if h.meta_get("ris_at").is_some() {
+                relmon::c19_history(h, rep)
+            } else {
+                mon::diffmon::run_one(prop, h, rep)
+            }
+        }
+        "C20" => {
+            mon::c20::replay(h, rep);
+            mon::diffmon::run_one(prop, h, rep);
+        }
+        _ => mon::diffmon::run_one(prop, h, rep),
     }
 }
 
@@ -125,9 +203,18 @@ fn main() {
     if args[2] == "--replay" {
         let (p, h) = run::load_replay(&args[3]).expect("cannot read replay file");
         let mut rep = Report::new();
-        mon::diffmon::run_one(&p, &h, &mut rep);
+        replay(&p, &h, &mut rep);
         for v in &rep.violations {
             println!("VIOLATION property={} replay={}\n  {}", v.prop, args[3], v.msg);
+        }
+        for (k, (n, e)) in &rep.known {
+            println!("KNOWN-FINDING: property={} {} x{} {}", p, k, n, e);
+        }
+        for i in &rep.inconclusive {
+            println!("INCONCLUSIVE: {}", i);
+        }
+        if rep.violations.is_empty() {
+            println!("replay of {} for {}: no violation", args[3], p);
         }
         std::process::exit(if rep.violations.is_empty() { 0 } else { 1 });
     }
